@@ -264,7 +264,7 @@ func runC09(c *RuleCtx) {
 		var doPX types.Object
 		for _, cs := range p.Sites(f, true, fnMakePrune) {
 			if id, ok := unparen(cs.Call.Args[2]).(*ast.Ident); ok {
-				doPX = f.Info().Uses[id]
+				doPX = p.R(f).CopyRoot(f.Info().Uses[id])
 			} else {
 				c.Bad("G9", f.Name, "makePrune doPX operand", cs.Call, "the PX flag handed to makePrune is not the handler's doPX variable: "+p.Src(cs.Call.Args[2]))
 			}
@@ -275,7 +275,7 @@ func runC09(c *RuleCtx) {
 			for _, l := range p.EnclosingLoops(cs.Call) {
 				if r, ok := l.(*ast.RangeStmt); ok {
 					if id, ok := unparen(r.X).(*ast.Ident); ok {
-						pruneObj = f.Info().Uses[id]
+						pruneObj = p.R(f).CopyRoot(f.Info().Uses[id])
 					}
 				}
 			}
@@ -436,26 +436,27 @@ func runC09(c *RuleCtx) {
 			}
 			// the envelope handed on is the validated one (or nil)
 			if cl, ok := unparen(ap.Call.Args[len(ap.Call.Args)-1]).(*ast.CompositeLit); ok && len(cl.Elts) == 2 {
-				if id, ok := cl.Elts[1].(*ast.Ident); ok {
-					obj := f.Info().Uses[id]
+				if _, ok := cl.Elts[1].(*ast.Ident); ok {
 					good := true
-					for _, d := range p.R(f).Defs(obj) {
-						if d.kind == "zero" {
+					// every value that can reach the forwarded field (through any number of local copies) is nil /
+					// the zero value, or the consumed envelope moved there behind the peer-ID check
+					for _, ch := range p.R(f).Sources(cl.Elts[1]) {
+						if ch.Zero || (ch.Leaf != nil && ch.Leaf.IsConst("nil")) {
 							continue
 						}
-						if d.kind != "assign" || d.rhs == nil {
+						rv := ch.Leaf
+						if rv == nil || !(rv.Kind == "tuple" && rv.Name == "0" && rv.Args[0].IsCall(consume)) {
 							good = false
 							continue
 						}
-						rv := p.R(f).Val(d.rhs)
-						if !(rv.Kind == "tuple" && rv.Name == "0" && rv.Args[0].IsCall(consume)) {
-							good = false
-						}
-						if as, ok := d.node.(*ast.AssignStmt); ok {
-							ok2, _ := p.DomAny(f, as, AtomWant{idEq, true})
-							if !ok2 {
-								good = false
+						guarded := false
+						for _, n := range ch.Nodes {
+							if ok2, _ := p.DomAny(f, n, AtomWant{idEq, true}); ok2 {
+								guarded = true
 							}
+						}
+						if !guarded {
+							good = false
 						}
 					}
 					c.Check(good, "G12", f.Name, "forwarded record is the validated envelope", ap.Stmt, "spr is only assigned the consumed envelope after the peer-ID check", "the signed record handed to the connector is not (only) the validated envelope")
